@@ -121,9 +121,9 @@ def gen_case(rng: random.Random, tier: str) -> dict:
             c.update({"n": rng.choice([100, 5000, 30000])})
         return c
     if r < 0.70:
-        fam = rng.choice(["mbox_from", "mbox_from", "deep_html", "deep_rtf", "deep_json", "deep_odt", "deep_docx", "soup_html", "deep_ppt", "html_rows", "docx_paragraphs", "rtf_paragraphs",
+        fam = rng.choice(["mbox_from", "mbox_from", "deep_html", "deep_rtf", "deep_json", "deep_odt", "deep_docx", "soup_html", "deep_ppt", "deep_ppt_pictures", "epub_nav_soup", "html_rows", "docx_paragraphs", "rtf_paragraphs",
                           "odt_paragraphs", "csv_rows", "zip_members"])
-        base = {"mbox_from": [20000, 30000], "deep_html": [100, 200], "deep_rtf": [150, 400], "deep_json": [200, 230], "deep_odt": [100, 200], "deep_docx": [60, 100], "soup_html": [2000, 4000], "deep_ppt": [700, 1400],
+        base = {"mbox_from": [20000, 30000], "deep_html": [100, 200], "deep_rtf": [150, 400], "deep_json": [200, 230], "deep_odt": [100, 200], "deep_docx": [60, 100], "soup_html": [2000, 4000], "deep_ppt": [700, 1400], "deep_ppt_pictures": [600, 1200], "epub_nav_soup": [1500, 3000],
                 "html_rows": [3000, 6000], "docx_paragraphs": [3000, 6000], "rtf_paragraphs": [3000, 6000], "odt_paragraphs": [3000, 6000], "csv_rows": [20000, 50000],
                 "zip_members": [400, 800]}[fam]
         return {"mode": "scaling", "family": fam, "n": rng.choice(base), "factor": 4}
@@ -337,7 +337,8 @@ def build_pdf_loop(variant: str) -> bytes:
     return _mini_pdf(objs)
 
 
-OLE_CONTAINER_TYPES = [0x0FF0, 0x03E8, 0x03EE, 0x03F0, 0x0FF5, 0xF002, 0xF003, 0xF004, 0x040C, 0x1388]
+OLE_CONTAINER_TYPES = [0x0FF0, 0x03E8, 0x03EE, 0x03F0, 0x0FF5, 0xF002, 0xF003, 0xF004, 0x040C, 0x1388,
+                       0xF01A, 0xF01B, 0xF01F, 0xF01E]  # picture (BLIP) record types flagged as containers
 
 
 def build_ole_nested(stream: str, rtype: int, depth: int) -> bytes:
@@ -365,6 +366,23 @@ def build_scaling(fam: str, n: int) -> tuple[bytes, str]:
     if fam == "mbox_from":
         one = b"From a@example.org Tue Jan  2 03:04:05 2024\n"
         return one * n + b"From: a@example.org\nSubject: s\nDate: Tue, 02 Jan 2024 03:04:05 +0000\n\nbody\n", "s.mbox"
+    if fam == "deep_ppt_pictures":
+        return build_ole_nested("Pictures", 0xF01A, n), "s.ppt"
+    if fam == "epub_nav_soup":
+        # a table-of-contents document that is nothing but anchor starts which never close
+        base = _docs["gen/a.epub"]
+        out = io.BytesIO()
+        with zipfile.ZipFile(io.BytesIO(base)) as zin, zipfile.ZipFile(out, "w", zipfile.ZIP_DEFLATED) as zo:
+            for nm in zin.namelist():
+                payload = zin.read(nm)
+                if nm.endswith("content.opf"):
+                    payload = payload.replace(b"</manifest>", b'<item id="nav" href="nav.xhtml" media-type="application/xhtml+xml" properties="nav"/>'
+                                              b'<item id="ncx" href="toc.ncx" media-type="application/x-dtbncx+xml"/></manifest>').replace(b"<spine>", b'<spine toc="ncx">')
+                zo.writestr(nm, payload)
+            soup = b"<html><body><nav>" + b'<a class="x" ' * n + b"</nav></body></html>"
+            zo.writestr("OEBPS/nav.xhtml", soup)
+            zo.writestr("OEBPS/toc.ncx", soup)
+        return out.getvalue(), "s.epub"
     if fam == "deep_ppt":
         return build_ole_nested("PowerPoint Document", 0x0FF0, n), "s.ppt"
     if fam == "soup_html":
